@@ -5,6 +5,7 @@ import Rtcm.Model.Message
 import Rtcm.Model.Reader
 import Rtcm.Model.Socket
 import Rtcm.Model.Names
+import Rtcm.Model.Layout
 import Rtcm.Gen.Tables
 /-
   Line-protocol driver over the executable model (no Lemmas / Props / Mathlib imported).
@@ -134,6 +135,23 @@ def step (line : String) : String :=
         | some bs => outStr msgStr (construct T (some bs) l)
         | none => "bad-op"
     | none => "bad-op"
+  | ["lay", l, h, vs] =>
+    -- lay the raw values out (spec side of C03), pack them, compare with the given payload bytes
+    match l.toNat?, hexToBytes h, (if vs = "-" then some [] else (vs.splitOn ",").mapM (·.toNat?)) with
+    | some l, some bs, some vals =>
+      match identity bs with
+      | .ok id =>
+        match getDict T id with
+        | some d =>
+          match layout T id l d vals with
+          | .ok ls =>
+            if ls.vals ≠ [] then s!"lay-leftover {ls.vals.length}"
+            else if packBytes ls.cells ≠ bs then s!"lay-mismatch {bytesToHex (packBytes ls.cells)}"
+            else msgStr ⟨bs, l, id, false, ls.s.attrs, true⟩
+          | .error _ => "lay-error"
+        | none => "lay-nodef"
+      | _ => "lay-noid"
+    | _, _, _ => "bad-op"
   | ["parse", v, l, h] =>
     match v.toNat?, l.toNat?, hexToBytes h with
     | some v, some l, some bs => outStr msgStr (parse T bs v l)
